@@ -46,6 +46,51 @@ def prep(tag, pid, hint):
     print(path)
 
 
+def prep_benign(tag, pid, hint=""):
+    """scratch worktree + prompt for a behaviour-preserving refactor (false-alarm testing)"""
+    wt = "/tmp/%s-%s" % (tag, pid)
+    subprocess.run(["git", "-C", "/repo", "worktree", "add", "--detach", wt, "HEAD"], stdout=subprocess.DEVNULL, stderr=subprocess.DEVNULL)
+    p = props()[pid]
+    t = open(os.path.join(VERIF, "tools", "benign_prompt_template.txt")).read()
+    for k, v in (("@WT@", wt), ("@PID@", pid), ("@TITLE@", p["title"]), ("@STATEMENT@", p["statement"]),
+                 ("@QUANT@", p["quantifier"]["text"]), ("@HINT@", hint)):
+        t = t.replace(k, v)
+    os.makedirs("/tmp/seedprompts", exist_ok=True)
+    path = "/tmp/seedprompts/%s-%s.txt" % (tag, pid)
+    with open(path, "w") as fh:
+        fh.write(t)
+    print(path)
+
+
+def finish_benign(tag, pid, name):
+    """run the suite and every check on the refactored tree; store it under /verif/benign/<name>/; any check that fires
+    must be triaged by hand (false alarm of the check, or the refactor is not behaviour-preserving after all)"""
+    wt = "/tmp/%s-%s" % (tag, pid)
+    seed = os.path.join(wt, "SEED")
+    meta = json.load(open(os.path.join(seed, "meta.json")))
+    r = subprocess.run("cargo test --offline --lib 2>&1 | grep -E '^test result' | head -1", shell=True, cwd=wt, stdout=subprocess.PIPE, text=True)
+    suite = r.stdout.strip()
+    r = subprocess.run([os.path.join(VERIF, "tools", "eval_seed.sh"), pid, os.path.join(seed, "patch.diff")],
+                       stdout=subprocess.PIPE, stderr=subprocess.STDOUT, text=True)
+    m = re.search(r"SEED \S+ caught by:(.*)", r.stdout)
+    fired = m.group(1).split() if m else ["?"]
+    d = os.path.join(VERIF, "benign", name)
+    os.makedirs(d, exist_ok=True)
+    shutil.copy(os.path.join(seed, "patch.diff"), os.path.join(d, "patch.diff"))
+    if os.path.exists(os.path.join(seed, "argument.md")):
+        shutil.copy(os.path.join(seed, "argument.md"), os.path.join(d, "argument.md"))
+    meta["origin"] = "independent sub-agent (%s) asked for a behaviour-preserving refactor, given the property text and a scratch worktree of /repo (HEAD %s)" % (
+        tag, subprocess.check_output(["git", "-C", "/repo", "rev-parse", "--short", "HEAD"], text=True).strip())
+    meta["suite_with_patch"] = suite
+    meta["checks_fired_when_first_evaluated"] = fired
+    with open(os.path.join(d, "meta.json"), "w") as fh:
+        json.dump(meta, fh, indent=1)
+    print(name, suite[:40], "FIRED=%s" % fired if fired else "silent")
+    for l in list(dict.fromkeys(l.strip() for l in r.stdout.splitlines() if l.strip().startswith(("rule=", "[dbg]", "[rel]"))))[:14]:
+        print("   ", l[:260])
+    subprocess.run(["git", "-C", "/repo", "worktree", "remove", "--force", wt])
+
+
 def finish(tag, pid, name, origin_note=""):
     wt = "/tmp/%s-%s" % (tag, pid)
     seed = os.path.join(wt, "SEED")
@@ -57,9 +102,9 @@ def finish(tag, pid, name, origin_note=""):
     r = subprocess.run("cargo test --offline --lib 2>&1 | grep -E '^test result' | head -1", shell=True, cwd=wt, stdout=subprocess.PIPE, text=True)
     suite = r.stdout.strip()
     with_p = subprocess.run("cargo run --offline %s --example seed_demo >/dev/null 2>&1" % rel, shell=True, cwd=wt).returncode
-    subprocess.run("git stash -q -- src", shell=True, cwd=wt)
+    subprocess.run("git apply -R SEED/patch.diff", shell=True, cwd=wt)      # never `git stash`: the stash is shared by all worktrees
     without_p = subprocess.run("cargo run --offline %s --example seed_demo >/dev/null 2>&1" % rel, shell=True, cwd=wt).returncode
-    subprocess.run("git stash pop -q && rm -rf examples", shell=True, cwd=wt)
+    subprocess.run("git apply SEED/patch.diff && rm -rf examples", shell=True, cwd=wt)
     # evaluate
     r = subprocess.run([os.path.join(VERIF, "tools", "eval_seed.sh"), pid, os.path.join(seed, "patch.diff")],
                        stdout=subprocess.PIPE, stderr=subprocess.STDOUT, text=True)
@@ -77,7 +122,7 @@ def finish(tag, pid, name, origin_note=""):
         "demo_with_patch": "fails (exit %d)" % with_p if with_p != 0 else "UNCONFIRMED (exit 0)",
         "demo_without_patch": "passes (exit 0)" if without_p == 0 else "UNCONFIRMED (exit %d)" % without_p,
         "how": "in the scratch worktree: cargo test --offline --lib with the patch; demo as examples/seed_demo.rs via cargo run "
-               "--offline %s --example seed_demo with the patch and after git stash of src/" % rel,
+               "--offline %s --example seed_demo with the patch and after git apply -R of the patch" % rel,
     }
     meta["checks_run"] = "every claimed ./check <pid> --repo <scratch copy with patch> --no-write; caught_by lists the properties whose check exits 1"
     with open(os.path.join(d, "meta.json"), "w") as fh:
@@ -95,3 +140,7 @@ if __name__ == "__main__":
         prep(sys.argv[2], sys.argv[3], open(sys.argv[4]).read().strip())
     elif sys.argv[1] == "finish":
         finish(sys.argv[2], sys.argv[3], sys.argv[4])
+    elif sys.argv[1] == "prep-benign":
+        prep_benign(sys.argv[2], sys.argv[3], open(sys.argv[4]).read().strip() if len(sys.argv) > 4 else "")
+    elif sys.argv[1] == "finish-benign":
+        finish_benign(sys.argv[2], sys.argv[3], sys.argv[4])
